@@ -196,36 +196,50 @@ Fixpoint tree_eqb (a b : tree) : bool :=
   end.
 
 (* ---------------- NonTensorStack.data (get_non_tensor): _stack_non_tensor(self.tensordicts, raise_if_non_unique=True) *)
-(* None = ValueError -> AttributeError -> the caller falls back to tolist() *)
-Fixpoint data_prop (x : nt) : option payload :=
-  match x with
-  | Shared p _ => Some p
-  | Stack _ l =>
+(* [stack_unique f l] = the data of the NonTensorData that _stack_non_tensor(l, raise_if_non_unique=True) returns;
+   None = it raises (ValueError -> AttributeError -> the caller falls back to tolist()).
+   A member that is not a NonTensorData is handed to a recursive call AS THE LIST, so it is iterated along its dim 0
+   (not along its stack dim); whatever that call returns, the loop then `break`s and the result carries first.data, where
+   first.data is again the .data property of the first member (finding C16-a).  fuel = batch rank + 1. *)
+Fixpoint stack_unique (fuel : nat) (l : list nt) : option payload :=
+  match fuel with
+  | 0 => None
+  | S f =>
       match l with
       | [] => None
       | first :: _ =>
-          (* loop over the members; state: firstdata *)
+          let first_data := match first with Shared p _ => Some p | Stack _ l' => stack_unique f l' end in
           (fix loop (l : list nt) (firstdata : option payload) : option payload :=
              match l with
-             | [] => data_prop first                              (* for-else: NonTensorData(data=first.data) *)
+             | [] => first_data                                   (* for-else *)
              | Shared p _ :: r =>
                  match firstdata with
                  | None => loop r (Some p)
                  | Some q => if (p =? q)%Z then loop r firstdata else None        (* ValueError *)
                  end
              | (Stack _ _ as m) :: r =>
-                 if fixed_C16a
-                 then match data_prop m, firstdata with
-                      | Some p, None => loop r (Some p)
-                      | Some p, Some q => if (p =? q)%Z then loop r firstdata else None
-                      | None, _ => None
-                      end
-                 else match data_prop m with                       (* the inner call may raise ... *)
-                      | Some _ => data_prop first                  (* ... then `break`: first.data *)
-                      | None => None
-                      end
+                 match unbind 0 m with
+                 | Ok slices =>
+                     match stack_unique f slices with
+                     | Some p =>
+                         if fixed_C16a
+                         then match firstdata with
+                              | None => loop r (Some p)
+                              | Some q => if (p =? q)%Z then loop r firstdata else None
+                              end
+                         else first_data                          (* `break` *)
+                     | None => None
+                     end
+                 | _ => None
+                 end
              end) l None
       end
+  end.
+
+Definition data_prop (x : nt) : option payload :=
+  match x with
+  | Shared p _ => Some p
+  | Stack _ l => stack_unique (S (rank x)) l
   end.
 
 (* get_non_tensor: the unique value when .data gives one, else the nested list *)
